@@ -594,12 +594,29 @@ pub mod debug {
                 }
             }
 
-            for (reg_num, val) in self.address_regs.iter().enumerate() {
-                set_dr(pid, reg_num, *val)?;
+            fn apply(state: &HardwareDebugState, pid: Pid) -> Result<(), Error> {
+                // Disable every slot first. The kernel validates an address against the length
+                // the slot had before (and a length against the address it had before), even
+                // while the slot is disabled: reusing a slot freed by an 8-byte watchpoint for a
+                // 1-byte one at an odd address failed with EINVAL. With the control register
+                // cleared all lengths are 1 byte, so any address is accepted; the final write
+                // validates the new pairs.
+                set_dr(pid, 7, 0)?;
+                for (reg_num, val) in state.address_regs.iter().enumerate() {
+                    set_dr(pid, reg_num, *val)?;
+                }
+                set_dr(pid, 6, state.dr6.0)?;
+                set_dr(pid, 7, state.dr7.0)?;
+                Ok(())
             }
-            set_dr(pid, 6, self.dr6.0)?;
-            set_dr(pid, 7, self.dr7.0)?;
-            Ok(())
+
+            let previous = Self::current(pid).ok();
+            apply(self, pid).inspect_err(|_| {
+                // a refused state must not leave the watchpoints that were armed disabled
+                if let Some(previous) = previous {
+                    _ = apply(&previous, pid);
+                }
+            })
         }
     }
 
